@@ -44,6 +44,7 @@ RULE = ("rule documents with all metadata fields (dates in both accepted spellin
         "at either end, empty strings, texts that read as other YAML types, explicitly empty lists, taxonomy, license) for rules, correlation rules and filters; "
         "correlation boundary stream (group-by absent / empty / string / lists, aliases absent / empty, generate absent / false / true, rules as one string); "
         "ordered many-to-one stream (the shared key K and K|all on target and sources, one value or a list, at every position of the map, values longer than one character)")
+RULE += '; round 6: one to three related entries, ids may repeat'
 ASSUMPTIONS = [
     "queries are compared as text produced by the test backend (same backend, same configuration on both sides)",
     "PyYAML is used for the YAML leg (safe_dump / safe_load)",
@@ -104,7 +105,10 @@ def meta(rnd, i):
     if rnd.random() < 0.4: d["modified"] = rnd.choice(["2024-02-29", "2025/03/01", "2025/3/1", "2023/11/9"])
     if rnd.random() < 0.6: d["tags"] = rnd.sample(["attack.t1059", "attack.execution", "cve.2024-1234", "tlp.red"], 2)
     if rnd.random() < 0.4: d["references"] = ["https://example.org/a", "https://example.org/b"]
-    if rnd.random() < 0.4: d["related"] = [{"id": str(uuid.UUID(int=0x5000 + i)), "type": rnd.choice(["derived", "obsolete", "similar"])}]
+    if rnd.random() < 0.4:
+        # one to three related rules; the same rule may be named twice under different relation types
+        d["related"] = [{"id": str(uuid.UUID(int=0x5000 + i + (k if rnd.random() < 0.5 else 0))), "type": t}
+                        for k, t in enumerate(rnd.sample(["derived", "obsolete", "similar", "merged", "renamed"], rnd.choice([1, 1, 2, 3])))]
     if rnd.random() < 0.4: d["falsepositives"] = ["fp1", "fp2"]
     if rnd.random() < 0.4: d["fields"] = ["f", "g"]
     if rnd.random() < 0.3: d["custom_attr"] = {"k": [1, 2, {"x": "y"}]}
